@@ -335,6 +335,10 @@ func drawURL(t *core.Tape, s *world.SchemaSpec) *urlSpec {
 
 		v := fmt.Sprint(t.Range(0, 120))
 
+		if t.Bool(1, 6) {
+			v = []string{"007", "+5", "-1", "1e3", "0x10", " 7", "7 ", "9223372036854775808", "00"}[t.Draw(9)]
+		}
+
 		if t.Bool(1, 5) {
 			var sp bool
 
@@ -411,6 +415,7 @@ type parsed struct {
 	u    *jsonapi.URL
 	err  error
 	str  string
+	str2 string // String() called a second time on the same URL value
 	snap string
 }
 
@@ -496,6 +501,7 @@ func run(t *core.Tape, st *core.Stats) *core.Violation {
 			mo.With(func() {
 				pr.str = pr.u.String()
 				pr.snap = snapshot(pr.u)
+				pr.str2 = pr.u.String()
 			})
 		})
 		st.MapOrder(mo)
@@ -503,6 +509,10 @@ func run(t *core.Tape, st *core.Stats) *core.Violation {
 
 		if p != nil {
 			return viol("no-panic", p.Func, "string:"+class+":"+p.Class, "String() of the %s panicked: %s", what, p.Value)
+		}
+
+		if pr.str2 != pr.str {
+			return viol("string-repeatable", "URL.String", class, "String() called twice on the same URL gives two texts\n    1st: %q\n    2nd: %q", pr.str, pr.str2)
 		}
 
 		return nil
